@@ -193,9 +193,13 @@ func c17Scenarios(tier string) []*Scenario {
 	// X is defined in every subset of {inherited, env_cmds, global, per-process}
 	for mask := 0; mask < 16; mask++ {
 		for _, replicas := range []int{1, 3} {
-			for _, nested := range []bool{false, true} {
+			for _, nestedTty := range []int{0, 1, 2} {
+				nested, tty := nestedTty == 1, nestedTty == 2
 				if tier != "thorough" && nested && mask != 0 && mask != 15 {
 					continue
+				}
+				if tty && replicas != 1 && tier != "thorough" {
+					continue // is_tty: the command runs on a pseudo terminal (another commander)
 				}
 				inh, ecmd, glob, per := mask&1 != 0, mask&2 != 0, mask&4 != 0, mask&8 != 0
 				var global []string
@@ -206,6 +210,9 @@ func c17Scenarios(tier string) []*Scenario {
 					global = append(global, "env_cmds:", "  VHX: \"envcmd-x\"", "  VHE: \"envcmd-e\"")
 				}
 				pc := PC{Name: "p", Lines: []string{"working_dir: \"/\""}}
+				if tty {
+					pc.Lines = append(pc.Lines, "is_tty: true")
+				}
 				if per {
 					pc.Lines = append(pc.Lines, "environment:", "  - 'VHX=perproc'", "  - 'VHP=p'")
 				}
@@ -215,7 +222,7 @@ func c17Scenarios(tier string) []*Scenario {
 				// every replica fails once and is relaunched by its policy: the relaunch gets the same environment
 				pc.Restart = "on_failure"
 				sc := &Scenario{
-					ID:         fmt.Sprintf("c17-launch-mask%d-r%d-nested%v", mask, replicas, nested),
+					ID:         fmt.Sprintf("c17-launch-mask%d-r%d-nested%v-tty%v", mask, replicas, nested, tty),
 					YAML:       projectYAML(global, pc),
 					Procs:      map[string]*ProcScript{"p": {Launches: exits(1, 0)}},
 					TickBudget: 2,
@@ -235,6 +242,11 @@ func c17Scenarios(tier string) []*Scenario {
 					var vs []Violation
 					n := 0
 					for _, f := range w.procs {
+						if strings.HasPrefix(f.Key, "?") {
+							// the fake OS names a command after the injected PC_PROC_NAME / PC_REPLICA_NUM
+							vs = append(vs, viol("C17", "injected:none", "a command was launched without the injected variables: %v (environment of %d entries)", f.Args, len(f.Env)))
+							continue
+						}
 						if f.Name != "p" && f.Name != "outer" {
 							continue
 						}
